@@ -171,6 +171,27 @@ Proof.
 Qed.
 Print Assumptions C13_refuted_default_alpha_small_mode.
 
+(* FULL STATEMENT ACROSS TEMPLATES (false): values of generators with DIFFERENT template shapes are
+   distinct.  C13_values_collide_only_on_same_numbers says they coincide exactly when the
+   instantiated tuples coincide, and tuples of different shapes can coincide: template
+   `index,context` with context 1, index 2 and the default `context,index` with context 2,
+   index 1 both give the tuple (2,1) -> 291 -> 1481010 (witness corpus/C13/cross_shape_collision.json;
+   observed mask_for_key(1,10) = 137).  C13_cross_generator_distinct is the proved part (same
+   shape). *)
+Theorem C13_refuted_cross_shape :
+  exists tpl tpl' c c' i i' v,
+    tpl <> tpl' /\ c <> c' /\
+    In PContext tpl /\ In PIndex tpl /\ In PContext tpl' /\ In PIndex tpl' /\
+    num_value (fun _ _ => 137) (fun _ => 5) tpl [] c i true = Ok v /\
+    num_value (fun _ _ => 137) (fun _ => 5) tpl' [] c' i' true = Ok v.
+Proof.
+  exists [PIndex; PContext], (default_numeric_tpl false), 1, 2, 2, 1, 1481010.
+  split; [discriminate|]. split; [discriminate|].
+  repeat (split; [cbn; tauto|]).
+  split; vm_compute; reflexivity.
+Qed.
+Print Assumptions C13_refuted_cross_shape.
+
 (* ---- non-vacuity: concrete runs satisfying the hypotheses ---- *)
 
 (* the example of the comment in UniqueId.py: [127, 99, 0, 1] -> 17791439091 *)
